@@ -71,10 +71,10 @@ func hostOf(svc string) string { return svc + ".fw.test" }
 
 // PX is one proxy (signer on or off) listening on a socket.
 type PX struct {
-	P     *world.Proxy
-	Srv   *httptest.Server
-	Addr  string
-	Certs map[string]*rsa.PublicKey // as published at /oauth2/v1/certs, fetched over the socket
+	P        *world.Proxy
+	Srv      *httptest.Server
+	Addr     string
+	Certs    map[string]*rsa.PublicKey // as published at /oauth2/v1/certs, fetched over the socket
 	CertsErr string
 }
 
